@@ -32,7 +32,7 @@ def budget(tier):
 
 
 def profile():
-    return rtwork.rt_profile(p_examples=1.0, p_default=0.85, p_ts_bytes_default=0.3, p_doc=0.1,
+    return rtwork.rt_profile(p_examples=1.0, p_default=0.85, p_ts_bytes_default=0.3, p_doc=0.1, p_linebreak_literal=0.15,
                              p_nullable=0.25, n_types=(3, 10))
 
 
